@@ -8,7 +8,11 @@ VARIABLE i
 
 DecodeOK(cs) ==
     LET d == Decode(cs.line) IN
-    CASE d.k = "gray"    -> cs.res.k \in {"msg", "invalid", "accepted"}
+    \* a spelling beyond plain decimal may be refused, or read as an integer - but then the value it was
+    \* read as must respect the ranges and the cross-field rules like any other
+    CASE d.k = "gray"    -> \/ cs.res.k \in {"invalid", "accepted"}
+                            \/ cs.res.k = "msg" /\ WellFormedMsg([n |-> cs.res.n, c |-> cs.res.c, cmd |-> cs.res.cmd,
+                                                                  ack |-> cs.res.ack, t |-> cs.res.t, p |-> <<>>])
       [] d.k = "invalid" -> cs.res.k = "invalid"
       [] OTHER           -> \/ cs.res.k = "accepted"      \* decoded, then refused by a handler (listen path)
                             \/ /\ cs.res.k = "msg"
